@@ -11,6 +11,9 @@ mod follow;
 mod val;
 mod sql;
 mod engine;
+mod reader;
+mod printer;
+mod values;
 
 use std::process::exit;
 
@@ -32,6 +35,9 @@ fn main() {
                 "follow" => follow::replay(&cases),
                 "follow-exec" => follow::replay_exec(&cases),
                 "engine" => engine::replay(&cases),
+                "reader" => reader::replay(&cases),
+                "printer" => printer::replay(&cases),
+                "values" => values::replay(&cases),
                 m => { eprintln!("unknown module {}", m); exit(2) }
             };
             common::write_json(&args[4], &report);
@@ -41,6 +47,7 @@ fn main() {
             let n: usize = args[4].parse().unwrap_or_else(|_| usage());
             let events = match args[2].as_str() {
                 "follow" => follow::trace(seed, n),
+                "values" => values::trace(seed, n),
                 m => { eprintln!("unknown module {}", m); exit(2) }
             };
             common::write_ndjson(&args[5], &events);
